@@ -9,7 +9,7 @@ from cpverif.oracles import rng_from
 from cpverif.runner import subcheck
 
 TOL = {"exact_motion_rtol": 1e-9, "exact_motion_rtol_nldf": 1e-7, "ao_representation_residual": 1e-10,
-       "rotation_energy_rtol": {"level1": 3e-3, "level2": 2e-3}}
+       "rotation_energy_rtol": {"level3": 3e-3}}
 
 OCT = []
 for perm in itertools.permutations(range(3)):
@@ -156,10 +156,16 @@ def _run(case, ctx, exact=True):
     else:
         tol = TOL["rotation_energy_rtol"]["level%d" % mspec["grid_level"]]
     sig = (kind, fam)
-    # quadrature error is judged against a robust energy scale: |E_xc| or 0.05 Eh per electron, whichever is
-    # larger (a synthetic model can have a small net E_xc by cancellation)
-    escale = abs(e1) if exact else max(abs(e1), 0.05 * float(np.sum(n1)))
-    ctx.close([e2], [e1], sig + ("energy",), rtol=tol, scale=escale, motion=case["motion"])
+    if exact:
+        ctx.close([e2], [e1], sig + ("energy",), rtol=tol, scale=abs(e1), motion=case["motion"])
+    else:
+        # "to within quadrature error": judged on the finest grid used here (level 3), where the rotation-induced change
+        # of these synthetic functionals was calibrated on the pinned tree (80 cases: median 1e-6, worst 7.6e-4 of
+        # max(|E_xc|, 0.05 Eh per electron)); a broken rotational covariance does not shrink with the grid
+        escale = max(abs(e1), 0.05 * float(np.sum(n1)))
+        ctx.measure("rotation_energy/" + fam, abs(e2 - e1) / (tol * escale))
+        ctx.check(abs(e2 - e1) <= tol * escale, sig + ("energy",), err=abs(e2 - e1), bound=tol * escale, e=e1,
+                  motion=case["motion"])
     ctx.close(np.atleast_1d(n2), np.atleast_1d(n1), sig + ("nelec",), rtol=1e-10 if exact else tol)
     if exact:
         for s in range(len(v1)):
@@ -202,14 +208,13 @@ def exact_motions(case, ctx):
 
 
 def st_rot():
-    return st_case(kinds=("rotation",), families=("sl", "nldf", "sdmx"), levels=(1, 2))
+    return st_case(kinds=("rotation",), families=("sl", "nldf", "sdmx"), levels=(3,))
 
 
 @subcheck("C06", "arbitrary_rotation", st_rot, quick=32, thorough=400, tolerances=TOL, shrink=False,
-          rule="as exact_motions with a drawn proper/improper rotation + translation (the grid is not mapped onto itself): "
-               "energy and electron count agree to the calibrated quadrature tolerance of the grid level "
-               "(measured on the pinned tree over 110 cases: <= 6e-4 at level 1, <= 4.4e-4 at level 2, relative to "
-               "max(|E_xc|, 0.05 Eh per electron); frozen at 3e-3 / 2e-3); "
+          rule="as exact_motions with a drawn proper/improper rotation + translation (the grid is not mapped onto itself), on "
+               "grid level 3: energy and electron count agree to within quadrature error, calibrated on the pinned tree over 80 "
+               "cases (median 1e-6, worst 7.6e-4 relative to max(|E_xc|, 0.05 Eh per electron)) and frozen at 3e-3; "
                "non-trivial = always")
 def arbitrary_rotation(case, ctx):
     _run(case, ctx, exact=False)
